@@ -90,3 +90,119 @@ Lemma pprf_flip_unused_side_lem : forall H sid cb rk ms j level (f : bytes -> by
     (upd j (map_t f level (negb (extract_bit cb (j * Kdepth + S level))) (nth j ms default_msg)) ms) =
   eval_pprf H sid cb rk ms.
 Proof. intros H sid cb rk ms j level f. apply flip_unused_gen. Qed.
+
+(* ------------------------------------------------------------------ tampering characterised by collisions *)
+From SL Require Import Proofs.PprfTamper Proofs.PprfAdv.
+
+Definition accepted {A} (o : outcome A) : Prop := exists r, o = Val r.
+
+Lemma pprf_tamper_char_word_lem : forall H sid sk cb rk tt j level delta,
+  ot_consistent sk cb rk -> tt_zero tt -> j < Ntrees -> S level < Kdepth ->
+  fit LB delta <> zeros LB ->
+  let ms := honest_msgs H sid sk tt in
+  let used_side := extract_bit cb (j * Kdepth + S level) in
+  accepted (eval_pprf H sid cb rk
+              (upd j (map_t (fun w => bxor w (fit LB delta)) level used_side (nth j ms default_msg)) ms)) ->
+  (exists ps', hash_collision H sid (map (leaf_proof H sid) (fst (nth j (build_pprf H sid sk tt) dbuild))) ps')
+  \/ leaf_collision H sid \/ prg_collision H sid.
+Proof.
+  intros H sid sk cb rk tt j level delta Hc Htt Hj Hl HD. cbv zeta. intros [r E].
+  exact (tamper_char_t_gen H sid Kdepth Ntrees sk cb rk tt j level delta r Kdepth_pos Hc Htt Hj Hl HD E).
+Qed.
+
+Lemma pprf_tamper_char_t_tilda_lem : forall H sid sk cb rk tt j v,
+  ot_consistent sk cb rk -> tt_zero tt -> j < Ntrees ->
+  let ms := honest_msgs H sid sk tt in
+  fit LB2 v <> p_t_tilda (nth j ms default_msg) ->
+  accepted (eval_pprf H sid cb rk (upd j (set_t_tilda v (nth j ms default_msg)) ms)) ->
+  exists ps', hash_collision H sid (map (leaf_proof H sid) (fst (nth j (build_pprf H sid sk tt) dbuild))) ps'.
+Proof.
+  intros H sid sk cb rk tt j v Hc Htt Hj. cbv zeta. intros Hv [r E].
+  exact (tamper_char_tt_gen H sid Kdepth Ntrees sk cb rk tt j v r Kdepth_pos Hc Htt Hj Hv E).
+Qed.
+
+Lemma pprf_queries_distinct_lem : forall sid,
+  (forall ps ps', hash_q sid ps = hash_q sid ps' -> ps = ps') /\
+  (forall x x', proof_q sid x = proof_q sid x' -> x = x') /\
+  (forall x x' b b', ggm_q sid x b = ggm_q sid x' b' -> x = x').
+Proof.
+  intros sid. split; [apply hash_q_inj|]. split; [apply proof_q_inj|apply ggm_q_inj].
+Qed.
+
+(* ------------------------------------------------------------------ the calibrated adversarial sender *)
+Definition adv_msgs H sid sk tt tree level side delta g : list pprf_msg :=
+  map snd (adv_pprf H sid sk tt tree level side delta g).
+
+(** the coincidences excluded in the only-if direction, for the adversary aimed at [tree] *)
+Definition adv_coincidence H sid (sk : list (bytes * bytes)) (tt : list bytes) (cb : bytes)
+           (tree level : nat) (side : bool) (delta : bytes) (g : list bool) : Prop :=
+  (exists ps ps', hash_collision H sid ps ps') \/ leaf_collision H sid \/ prg_collision H sid \/
+  view_coincidence H sid (tree_slice Kdepth tree sk) (nth tree tt []) level side delta (tree_bits Kdepth tree cb) g.
+
+Lemma pprf_selective_failure_if_lem : forall H sid sk cb rk tt tree level side delta,
+  ot_consistent sk cb rk -> tt_zero tt -> tree < Ntrees ->
+  accepted (eval_pprf H sid cb rk (adv_msgs H sid sk tt tree level side delta (tree_bits Kdepth tree cb))).
+Proof.
+  intros H sid sk cb rk tt tree level side delta Hc Htt Ht.
+  apply (adv_accept_iff_tree H sid Kdepth Ntrees sk cb rk tt tree level side delta _ Kdepth_pos Hc Htt Ht).
+  apply adv_tree_right. apply (okeys_slice Kdepth Ntrees); assumption.
+Qed.
+
+Lemma pprf_selective_failure_unused_lem : forall H sid sk cb rk tt tree level side delta g,
+  ot_consistent sk cb rk -> tt_zero tt -> tree < Ntrees -> S level < Kdepth -> length g = Kdepth ->
+  extract_bit cb (tree * Kdepth + S level) <> side -> nth (S level) g false <> side ->
+  accepted (eval_pprf H sid cb rk (adv_msgs H sid sk tt tree level side delta g)).
+Proof.
+  intros H sid sk cb rk tt tree level side delta g Hc Htt Ht Hl Hg Hcs Hgs.
+  apply (adv_accept_iff_tree H sid Kdepth Ntrees sk cb rk tt tree level side delta _ Kdepth_pos Hc Htt Ht).
+  apply adv_tree_unused.
+  - apply (okeys_slice Kdepth Ntrees); assumption.
+  - apply (slice_ne Kdepth Ntrees); [exact Kdepth_pos|apply Hc|exact Ht].
+  - rewrite (tree_slice_length Kdepth tree Ntrees); [exact Hg|apply Hc|exact Ht].
+  - apply Htt.
+  - rewrite nth_tree_bits by exact Hl. exact Hcs.
+  - exact Hgs.
+Qed.
+
+Lemma pprf_selective_failure_only_if_lem : forall H sid sk cb rk tt tree level side delta g,
+  ot_consistent sk cb rk -> tt_zero tt -> tree < Ntrees -> S level < Kdepth -> length g = Kdepth ->
+  fit LB delta <> zeros LB ->
+  accepted (eval_pprf H sid cb rk (adv_msgs H sid sk tt tree level side delta g)) ->
+  g = tree_bits Kdepth tree cb \/
+  (extract_bit cb (tree * Kdepth + S level) <> side /\ nth (S level) g false <> side) \/
+  adv_coincidence H sid sk tt cb tree level side delta g.
+Proof.
+  intros H sid sk cb rk tt tree level side delta g Hc Htt Ht Hl Hg HD Hacc.
+  apply (adv_accept_iff_tree H sid Kdepth Ntrees sk cb rk tt tree level side delta _ Kdepth_pos Hc Htt Ht) in Hacc.
+  destruct Hacc as [v Ev].
+  assert (Lks : length (tree_slice Kdepth tree sk) = Kdepth)
+    by (apply (tree_slice_length Kdepth tree Ntrees); [apply Hc|exact Ht]).
+  destruct (adv_tree_only_if H sid _ _ _ (nth tree tt []) level side delta g v
+              (okeys_slice Kdepth Ntrees sk cb rk tree Hc Ht)
+              (slice_ne Kdepth Ntrees tree sk Kdepth_pos (proj1 Hc) Ht)
+              (eq_trans Hg (eq_sym Lks)) (Htt tree) (eq_ind_r (fun n => S level < n) Hl Lks) HD Ev)
+    as [E|[[A B]|[C|[C|[C|C]]]]].
+  - left. symmetry. exact E.
+  - right. left. rewrite nth_tree_bits in A by exact Hl. split; assumption.
+  - right. right. left. exact C.
+  - right. right. right. left. exact C.
+  - right. right. right. right. left. exact C.
+  - right. right. right. right. right.
+    destruct C as [C1 [C2 [C3 C4]]]. repeat split; try assumption.
+    rewrite <- (okeys_unique _ _ _ (okeys_slice Kdepth Ntrees sk cb rk tree Hc Ht)) in C4 |- *. exact C4.
+Qed.
+
+(** the iff, for a tampered word the receiver reads, once the coincidences are excluded *)
+Lemma pprf_selective_failure_lem : forall H sid sk cb rk tt tree level side delta g,
+  ot_consistent sk cb rk -> tt_zero tt -> tree < Ntrees -> S level < Kdepth -> length g = Kdepth ->
+  fit LB delta <> zeros LB ->
+  extract_bit cb (tree * Kdepth + S level) = side ->
+  ~ adv_coincidence H sid sk tt cb tree level side delta g ->
+  (accepted (eval_pprf H sid cb rk (adv_msgs H sid sk tt tree level side delta g)) <-> g = tree_bits Kdepth tree cb).
+Proof.
+  intros H sid sk cb rk tt tree level side delta g Hc Htt Ht Hl Hg HD Hused Hno. split.
+  - intros Hacc.
+    destruct (pprf_selective_failure_only_if_lem H sid sk cb rk tt tree level side delta g Hc Htt Ht Hl Hg HD Hacc)
+      as [E|[[A _]|C]]; [exact E|contradiction|contradiction].
+  - intros ->. apply pprf_selective_failure_if_lem; assumption.
+Qed.
